@@ -7,6 +7,7 @@ mod props;
 mod runner;
 mod shrink;
 mod snap;
+mod spec;
 mod trace;
 
 use props::Tier;
